@@ -43,9 +43,10 @@ fn real_main() {
                     seed,
                     out: arg(&args, "--out").unwrap_or("/verif/evidence/C10.json".into()),
                     replay_dir: arg(&args, "--replay-dir").unwrap_or("/verif/replays".into()),
-                    sequences: arg(&args, "--programs").and_then(|s| s.parse().ok()).unwrap_or(if thorough { 200_000 } else { 10_000 }),
-                    trials: arg(&args, "--trials").and_then(|s| s.parse().ok()).unwrap_or(if thorough { 3_000 } else { 150 }),
+                    sequences: arg(&args, "--programs").and_then(|s| s.parse().ok()).unwrap_or(if thorough { 500_000 } else { 20_000 }),
+                    trials: arg(&args, "--trials").and_then(|s| s.parse().ok()).unwrap_or(if thorough { 5_000 } else { 300 }),
                     stage_notes: arg(&args, "--stage-notes"),
+                    small: args.iter().any(|a| a == "--miri-small"),
                 };
                 let (v, inc) = threads::run_check(&cfg);
                 if v > 0 {
@@ -62,7 +63,7 @@ fn real_main() {
                     seed,
                     out: arg(&args, "--out").unwrap_or("/verif/evidence/C17.json".into()),
                     replay_dir: arg(&args, "--replay-dir").unwrap_or("/verif/replays".into()),
-                    sequences: arg(&args, "--programs").and_then(|s| s.parse().ok()).unwrap_or(if tier == "thorough" { 200_000 } else { 8_000 }),
+                    sequences: arg(&args, "--programs").and_then(|s| s.parse().ok()).unwrap_or(if tier == "thorough" { 1_000_000 } else { 40_000 }),
                 };
                 let (v, inc) = sysc::run_check(&cfg);
                 if v > 0 {
